@@ -163,6 +163,24 @@ def chameleon_import_orders(root):
         if ref[0] == 'EXC': raise RuntimeError(f'harness: the reference arrangement does not build: {ref}')
         for order, r in results.items():
             if r != ref: fails.append(dict(case=dict(chameleon=True, ver=ver, order=''.join(order)), observed=str(r)[:300], required='same global components and verdicts as with the imports in the order n, b, a'))
+    # an xs:import without schemaLocation in an imported document, satisfied by another import of the main schema - listed before or after it
+    for ver in ('1.0', '1.1'):
+        d = os.path.join(root, f'noloc{ver}'); os.makedirs(d, exist_ok=True)
+        open(os.path.join(d, 'c.xsd'), 'w').write(f'<xs:schema {XS} targetNamespace="urn:c"><xs:simpleType name="Code"><xs:restriction base="xs:string"><xs:maxLength value="3"/></xs:restriction></xs:simpleType></xs:schema>')
+        open(os.path.join(d, 'b.xsd'), 'w').write(f'<xs:schema {XS} targetNamespace="urn:b" xmlns:c="urn:c"><xs:import namespace="urn:c"/><xs:element name="eb" type="c:Code"/></xs:schema>')
+        imps = {'b': '<xs:import namespace="urn:b" schemaLocation="b.xsd"/>', 'c': '<xs:import namespace="urn:c" schemaLocation="c.xsd"/>'}
+        probes = ['<t:m xmlns:t="urn:t"><b:eb xmlns:b="urn:b">abc</b:eb></t:m>', '<t:m xmlns:t="urn:t"><b:eb xmlns:b="urn:b">abcd</b:eb></t:m>']
+        results = {}
+        for order in ('bc', 'cb'):
+            n += 1
+            open(os.path.join(d, 'main.xsd'), 'w').write(f'<xs:schema {XS} targetNamespace="urn:t">' + ''.join(imps[k] for k in order) +
+                                                       '<xs:element name="m"><xs:complexType><xs:sequence><xs:any namespace="##other" processContents="strict" maxOccurs="unbounded"/></xs:sequence></xs:complexType></xs:element></xs:schema>')
+            try:
+                sch = _cls(ver)(os.path.join(d, 'main.xsd'))
+                results[order] = (sorted((type(c).__name__, c.name) for c in sch.maps.iter_globals() if c.name and not c.name.startswith('{http://www.w3.org/')), [[e.reason for e in sch.iter_errors(p)] for p in probes])
+            except Exception as e: results[order] = ('EXC', type(e).__name__, str(e)[:100])
+        if results['cb'][0] == 'EXC': raise RuntimeError(f'harness: the reference arrangement does not build: {results["cb"]}')
+        if results['bc'] != results['cb']: fails.append(dict(case=dict(chameleon=True, ver=ver, order='locationless-import:bc'), observed=str(results['bc'])[:300], required='same global components and verdicts as with urn:c imported first'))
     return result('C09.chameleon_import_orders', 'a chameleon document included by a namespaced and by a no-namespace schema; the three imports of the main schema in all 6 orders x 2 classes x 4 probes', n, fails, exhaustive=True)
 
 
